@@ -99,11 +99,11 @@ class Graph:
             fresh[root] = operand(root)
         return fresh, clones
 
-    def expand_tree(self, root, max_leaves=512, max_ops=3000):
+    def expand_tree(self, root, max_leaves=512, max_ops=3000, max_elems=4_000_000):
         """Unfold the DAG under `root` into a tree: every USE of a value gets its own copy of the
         sub-computation beneath it.  Returns (tree root tensor, {leaf id: [copies]})."""
         clones = {}
-        count = {"leaves": 0, "ops": 0}
+        count = {"leaves": 0, "ops": 0, "elems": 0}
         self.tree_made = made = []
 
         def expand(i):
@@ -123,6 +123,9 @@ class Graph:
             xs = [expand(j) for j in ev["in"]]
             res = ops.as_list(ops.apply_op(self.SG, ev["op"], xs, ev["args"]))
             made.append(res[m["k"]])
+            count["elems"] += sum(int(r.data.size) for r in res)
+            if count["elems"] > max_elems:
+                raise TooBig()          # (memory budget: large tensors times many paths)
             return res[m["k"]]
 
         return expand(root), clones
